@@ -74,6 +74,18 @@ FORMS = {
     "content_then_other_equiv": ("<meta content='text/html; charset=%s' http-equiv=X-UA-Compatible>", False),
     "pragma_rev_uc": ('<META CONTENT="text/html; charset=%s" HTTP-EQUIV="CONTENT-TYPE">', True),
 }
+# ONE <meta> carrying both a charset attribute (label L1) and a Content-Type pragma (label L2, both valid and different).
+# The HTML standard gives the charset attribute priority in tree construction ("If the element has a charset attribute
+# ... Otherwise, if the element has an http-equiv attribute ...") and in the prescan (the charset attribute always sets
+# charset; content only "if charset is still null").  html5lib's prescan returns at the first usable attribute, so with the
+# pragma first its verdict is L2: that is prescan conformance (not decided here) and the prescan verdict is don't-care for
+# that form; what tree construction does is decided in both orders.
+DOUBLE_FORMS = {
+    "both_charset_first": ('<meta charset=%s http-equiv=content-type content="text/html; charset=%s">', "L1"),
+    "both_charset_first_q": ("<meta charset='%s' http-equiv=\"Content-Type\" content='text/html;charset=%s'>", "L1"),
+    "both_pragma_first": ('<meta http-equiv=content-type content="text/html; charset=%s" charset=%s>', "dontcare"),
+    "both_content_first": ('<meta content="text/html; charset=%s" charset="%s" http-equiv=Content-Type>', "dontcare"),
+}
 PLACES = {
     # name: (prefix, suffix, visibility)
     "plain": ("", "", "both"),
@@ -160,13 +172,21 @@ def build(case):
         elif t == "pad":
             emit_ascii(part["c"] * part["n"] if part["c"] != "<!--" else "<!--" + "X" * max(0, part["n"] - 7) + "-->")
         elif t == "decl":
-            tpl, effective = FORMS[part["form"]]
             pre, suf, vis = PLACES[part["place"]]
             emit_ascii(pre)
             start = pos
-            emit_ascii(tpl % part["label"])
-            end = pos - (2 if wide else 1)
-            decls.append({"start": start, "end": end, "label": part["label"], "effective": effective, "vis": vis})
+            if part["form"] in DOUBLE_FORMS:
+                tpl, prescan_sees = DOUBLE_FORMS[part["form"]]
+                l1, l2 = part["label"], part["label2"]
+                emit_ascii(tpl % ((l1, l2) if prescan_sees == "L1" else (l2, l1)))
+                end = pos - (2 if wide else 1)
+                decls.append({"start": start, "end": end, "label": l1, "effective": True, "vis": vis,
+                              "prescan_label": l1 if prescan_sees == "L1" else "dontcare"})
+            else:
+                tpl, effective = FORMS[part["form"]]
+                emit_ascii(tpl % part["label"])
+                end = pos - (2 if wide else 1)
+                decls.append({"start": start, "end": end, "label": part["label"], "effective": effective, "vis": vis})
             emit_ascii(suf)
         elif t == "body":
             b = bytes.fromhex(part["hex"])
@@ -236,8 +256,11 @@ def ground_truth(case, payload_len, decls):
         if d["start"] >= 1024:
             break
         if d["end"] < 964 and d["end"] < payload_len:
-            if d["effective"] and lookup_name(d["label"]):
-                tentative = norm_meta(lookup_name(d["label"]))
+            plabel = d.get("prescan_label", d["label"])
+            if plabel == "dontcare":
+                return None, "dontcare-prescan-form", info
+            if d["effective"] and lookup_name(plabel):
+                tentative = norm_meta(lookup_name(plabel))
                 rule = "prescan"
                 break
             continue
@@ -431,6 +454,13 @@ def gen_doc(rng):
         label = _label(rng)
         if esc_doc and rng.random() < 0.7:
             label = rng.choice(["iso-2022-jp", "csiso2022jp", "ISO-2022-JP"])
+        if rng.random() < 0.1 and place not in ("attr", "attr_sq", "pi", "bang", "endtag_attrs"):
+            l1 = _label(rng, "valid")
+            l2 = _label(rng, "valid")
+            if lookup_name(l1) != lookup_name(l2):
+                parts.append({"t": "decl", "form": rng.choice(sorted(DOUBLE_FORMS)), "place": place, "label": l1, "label2": l2})
+                _fill(rng, parts, rng.randint(0, 3))
+                continue
         parts.append({"t": "decl", "form": form, "place": place, "label": label})
         _fill(rng, parts, rng.randint(0, 3))
     body = b"".join(rng.choice(BODY_PIECES) for _ in range(rng.randint(1, 12)))
@@ -744,7 +774,10 @@ def shrinks(case):
             if len(b) > 1:
                 for nb in (b[:len(b) // 2], b[len(b) // 2:], b[:-1], b[1:]):
                     yield dict(case, parts=parts[:i] + [dict(p, hex=nb.hex())] + parts[i + 1:])
-        if p["t"] == "decl":
+        if p["t"] == "decl" and p["form"] in DOUBLE_FORMS:
+            if p["place"] != "plain":
+                yield dict(case, parts=parts[:i] + [dict(p, place="plain")] + parts[i + 1:])
+        elif p["t"] == "decl":
             if p["form"] != "charset":
                 yield dict(case, parts=parts[:i] + [dict(p, form="charset")] + parts[i + 1:])
             if p["place"] != "plain":
